@@ -124,6 +124,9 @@ func spellingDims(a, b *core.StructSpec) int {
 		if fa.Sp.Spaces != fb.Sp.Spaces {
 			d["spaces"] = true
 		}
+		if fa.Sp.Other != fb.Sp.Other {
+			d["othertags"] = true
+		}
 	}
 	if len(a.Extras) != len(b.Extras) {
 		d["extras"] = true
